@@ -73,12 +73,16 @@ def legendre_deriv_coeffs(l, m):
 
 
 def _polyval_mp(coeffs, z):
+    """Horner evaluation; the monomial coefficients of P_l grow like 2^l and cancel, so the
+    working precision is raised by len(coeffs) digits for the evaluation."""
     import mpmath as mp
 
-    acc = mp.mpf(0)
-    for c in reversed(coeffs):
-        acc = acc * z + mp.mpf(c.numerator) / mp.mpf(c.denominator)
-    return acc
+    with mp.workdps(mp.mp.dps + len(coeffs) + 5):
+        z = mp.mpf(z)
+        acc = mp.mpf(0)
+        for c in reversed(coeffs):
+            acc = acc * z + mp.mpf(c.numerator) / mp.mpf(c.denominator)
+    return +acc
 
 
 def ylm_mp(l, m, x, y, z):
@@ -270,6 +274,7 @@ def selftest(lmax_mp=16, lmax_add=120):
     # addition theorem at high degree (float64 Legendre by stable recursion)
     y = ylm_f64(lmax_add, dirs)
     cosg = np.clip(dirs @ dirs.T, -1, 1)
+    np.fill_diagonal(cosg, 1.0)
     p0 = np.ones_like(cosg)
     p1 = cosg.copy()
     worst = 0.0
@@ -282,8 +287,11 @@ def selftest(lmax_mp=16, lmax_add=120):
             pl = ((2 * l - 1) * cosg * p1 - (l - 1) * p0) / l
             p0, p1 = p1, pl
         blk = y[l * l : (l + 1) ** 2]
-        worst = max(worst, np.max(np.abs(blk.T @ blk - (2 * l + 1) / (4 * np.pi) * pl)))
-    out["addition_theorem"] = worst
-    if worst > 1e-10:
+        # the reference P_l(cos gamma) itself is sensitive to the rounding of cos gamma:
+        # |P_l'| <= l(l+1)/2, so the comparison is scaled by that conditioning
+        scale = 2e-13 * (2 * l + 1) + 1e-15 * l * (l + 1) / 2 * (2 * l + 1) / (4 * np.pi)
+        worst = max(worst, np.max(np.abs(blk.T @ blk - (2 * l + 1) / (4 * np.pi) * pl)) / scale)
+    out["addition_theorem_error_over_bound"] = worst
+    if worst > 1.0:
         raise HarnessError(f"harmonic oracle violates the addition theorem: {worst}")
     return out
